@@ -30,33 +30,48 @@ theorem split_correct_chars (d : Doc) (h : d.WF P) (s : Str) (hl : lex P s = d.t
     split P s = .ok (d.expected P (-1)) := by
   unfold split; rw [hl]; exact split_correct P d h
 
-/-- No failed block is produced for a derivation. -/
-theorem no_failed_block (d : Doc) : ∀ b ∈ d.expected P (-1), b.isFailed = false := by
+/-- an entry whose field keys are pairwise distinct is expected as a plain entry -/
+theorem expected_entry_of_distinct (line : Int) (lit : Str) (key : List Tok) (fields : List FieldSrc)
+    (tr : Option (List Tok)) (h : (BlockSrc.entry lit key fields tr).DistinctFields P) :
+    (BlockSrc.entry lit key fields tr).expected P line =
+      .live (.entry { ty := (classify P lit).2, key := strip P (flatten key),
+                      fields := expFields P (line + nlCount key) fields, line := line,
+                      raw := flatten (BlockSrc.entry lit key fields tr).toks }) := by
+  simp only [BlockSrc.expected]
+  exact mkEntry_of_nodup _ _ _ _ _ (by rw [expFields_keys]; exact h)
+
+/-- No failed block is produced for a derivation whose entries have pairwise distinct field keys. -/
+theorem no_failed_block (d : Doc) (hd : d.DistinctFields P) :
+    ∀ b ∈ d.expected P (-1), b.isFailed = false := by
   have hj : ∀ line j, ∀ b ∈ expJunk P line j, b.isFailed = false := by
     intro line j b hb
     simp only [expJunk] at hb
     split at hb
     · cases hb
     · simp only [List.mem_singleton] at hb; subst hb; rfl
-  have hb : ∀ line (x : BlockSrc), (x.expected P line).isFailed = false := by
-    intro line x; cases x <;> rfl
-  have hi : ∀ items line, ∀ b ∈ expItems P line items, b.isFailed = false := by
+  have hb : ∀ line (x : BlockSrc), x.DistinctFields P → (x.expected P line).isFailed = false := by
+    intro line x hx
+    cases x with
+    | entry lit key fields tr => rw [expected_entry_of_distinct P line lit key fields tr hx]; rfl
+    | _ => rfl
+  have hi : ∀ items, (∀ bj ∈ items, bj.1.DistinctFields P) →
+      ∀ line, ∀ b ∈ expItems P line items, b.isFailed = false := by
     intro items
     induction items with
-    | nil => intro line b hb'; cases hb'
+    | nil => intro _ line b hb'; cases hb'
     | cons bj rest ih =>
-      intro line b hb'
+      intro hdf line b hb'
       obtain ⟨x, j⟩ := bj
       simp only [expItems, List.mem_cons, List.mem_append] at hb'
       rcases hb' with rfl | hb' | hb'
-      · exact hb line x
+      · exact hb line x (hdf (x, j) (List.mem_cons_self))
       · exact hj _ _ b hb'
-      · exact ih _ b hb'
+      · exact ih (fun y hy => hdf y (List.mem_cons_of_mem _ hy)) _ b hb'
   intro b hb'
   simp only [Doc.expected, List.mem_append] at hb'
   rcases hb' with hb' | hb'
   · exact hj _ _ b hb'
-  · exact hi _ _ b hb'
+  · exact hi _ hd _ b hb'
 
 /-- One block per source block: the expected list has a block for every item (plus implicit
 comments). -/
@@ -66,7 +81,12 @@ theorem count_blocks (d : Doc) :
   have hj : ∀ line j, (expJunk P line j).filter (fun b => match b with | .live (.impl ..) => false | _ => true) = [] := by
     intro line j; simp only [expJunk]; split <;> simp
   have hb : ∀ line (x : BlockSrc), (match x.expected P line with | .live (.impl ..) => false | _ => true) = true := by
-    intro line x; cases x <;> rfl
+    intro line x
+    cases x with
+    | entry lit key fields tr =>
+      simp only [BlockSrc.expected, mkEntry]
+      by_cases h : (dupKeys (expFields P (line + nlCount key) fields)).isEmpty = true <;> simp [h]
+    | _ => rfl
   have hi : ∀ items line, ((expItems P line items).filter
       fun b => match b with | .live (.impl ..) => false | _ => true).length = items.length := by
     intro items
@@ -120,7 +140,7 @@ example : exampleDoc.WF asciiChars := by
   intro bj hbj
   simp only [exampleDoc, List.mem_cons, List.not_mem_nil, or_false] at hbj
   rcases hbj with rfl | rfl | rfl | rfl
-  · refine ⟨⟨by decide +kernel, by decide, ?_, ?_, by decide +kernel⟩, by decide⟩
+  · refine ⟨⟨by decide +kernel, by decide, ?_, ?_⟩, by decide⟩
     · intro f hf
       simp only [List.mem_cons, List.not_mem_nil, or_false] at hf
       rcases hf with rfl | rfl
@@ -130,6 +150,13 @@ example : exampleDoc.WF asciiChars := by
   · exact ⟨⟨by decide +kernel, by decide, bal_v⟩, by decide⟩
   · exact ⟨⟨by decide +kernel, bal_c⟩, by decide⟩
   · exact ⟨⟨by decide +kernel, bal_p⟩, by decide⟩
+
+example : exampleDoc.DistinctFields asciiChars := by
+  intro bj hbj
+  simp only [exampleDoc, List.mem_cons, List.not_mem_nil, or_false] at hbj
+  rcases hbj with rfl | rfl | rfl | rfl
+  · simp only [BlockSrc.DistinctFields]; decide +kernel
+  all_goals trivial
 
 example : (splitToks asciiChars exampleDoc.toks).toOption.map (fun bs => bs.map fun b => (b.isFailed, b.line))
     = some [(false, 0), (false, 1), (false, 4), (false, 4), (false, 4), (false, 4)] := by
